@@ -49,6 +49,20 @@ def cases(tier):
                 members[pos] = dict(members[pos], tamper_statement={'op': 'promise', 'j': 0, 'value': str(maxv + 1)})
                 cfg = {'scenario': 'batch', 'n': n, 'x': x, 'members': members, 'actions': ['VerifyOnly', 'RecoverAndVerify', 'RecoverOnly']}
                 out.append({'cfg': cfg, 'kind': 'too-large', 'name': 'batch member %d carries a promise 2^%d' % (pos, n)})
+    # the PROVER refuses value < promise at each position on its own, whatever the other positions look like (promise below, equal to, absent)
+    for (n, m, x) in [(8, 2, 1), (8, 4, 2), (64, 2, 1)]:
+        for j in range(m):
+            for other in ('below', 'equal', 'absent'):
+                vals = ['9'] * m
+                proms = [{'below': '2', 'equal': '9', 'absent': None}[other]] * m
+                vals[j] = '3'
+                proms[j] = '4'
+                cfg = {'scenario': 'batch', 'n': n, 'x': x, 'members': [{'m': m, 'cap': m, 'values': vals, 'promises': proms, 'sym_bits': False}], 'prove_only': True}
+                out.append({'cfg': cfg, 'kind': 'prover-refuses', 'name': 'prover: value 3 < promise 4 at position %d, other promises %s their value (n%d m%d)' % (j, other, n, m)})
+        # ... and accepts value == promise at every position together
+        cfg = {'scenario': 'batch', 'n': n, 'x': x, 'members': [{'m': m, 'cap': m, 'values': [str(5 + jj) for jj in range(m)], 'promises': [str(5 + jj) for jj in range(m)], 'sym_bits': False}],
+               'actions': ['VerifyOnly']}
+        out.append({'cfg': cfg, 'kind': 'honest', 'name': 'value == promise at every position (n%d m%d)' % (n, m)})
     # honest with u64::MAX promise at 64 bits
     cfg = {'scenario': 'batch', 'n': 64, 'x': 1, 'members': [{'m': 1, 'cap': 1, 'values': [str((1 << 64) - 1)], 'promises': [str((1 << 64) - 1)]}], 'actions': ['VerifyOnly']}
     out.append({'cfg': cfg, 'kind': 'honest', 'name': 'value = promise = u64::MAX at 64 bits'})
@@ -58,6 +72,11 @@ def cases(tier):
 def analyse(ctx, case, run, S):
     cfg = case['cfg']
     kind = case['kind']
+    if kind == 'prover-refuses':
+        pr = run.out['prove'][0]
+        ctx.expect(pr['result'] != 'panic', 'C07:panic', '%s: the prover PANICKED' % case['name'], cfg, 'any_panic')
+        ctx.expect(pr['result'] != 'ok', 'C07:prover-accepts-value-below-promise', '%s: the prover returned a proof' % case['name'], cfg, 'prover_accepts_invalid')
+        return
     if not ctx.expect(all(p['result'] == 'ok' for p in run.out['prove']) and run.out['verify'] is not None, 'C07:prove', 'honest prover failed (%s): %s' % (case['name'], [p['result'] for p in run.out['prove']]), cfg, 'honest_rejected'):
         return
     side = run.side_conditions()
